@@ -194,7 +194,7 @@ class Report(object):
     # -- finishing -----------------------------------------------------------------
     def finish(self):
         known = load_known()
-        ev_dir = os.path.join(VERIF, "evidence")
+        ev_dir = os.environ.get("VERIF_EVIDENCE_DIR") or os.path.join(VERIF, "evidence")
         os.makedirs(os.path.join(ev_dir, "replay"), exist_ok=True)
         out_lines = []
         new_viol = []
